@@ -6,13 +6,18 @@
    triples and any two line-break conventions, fed in any chunking, is read as the same segments (ISA16, which IS a
    delimiter, apart) with the same errors at the same positions.  Hypothesis ctl_simple (the elements the reader
    interprets carry one component) is the part of "for all documents" the theorem does not cover.  The remaining
-   pipeline (walker, element validation, acknowledgement) takes the parsed segments as input; its independence of
-   the delimiters is NOT a theorem: the check compares complete runs of the implementation on re-encoded documents. *)
+   pipeline takes the parsed segments as input.  For two of its layers the delimiters are proved irrelevant
+   (Proofs/C12_layers.v): segment validation (C12_validation_delims_irrelevant) and the walker
+   (C12_walker_delims_irrelevant), each under a computable hypothesis saying that no composite value is read where the
+   map expects a simple element (without it the offending VALUE is quoted in an error text with the separator of the
+   source, so the statement is false: Witness12.* are the proved counterexamples).  The acknowledgement bodies are
+   functions of the error tree alone (Props/C05.v).  End to end the check still compares complete runs of the
+   implementation on re-encoded documents. *)
 From Coq Require Import String.
 From PX.Lib Require Import Base PyStr.
-From PX.Model Require Import Path Segment Raw Reader.
-From PX.Spec Require Import C01_spec C12_spec.
-From PX.Proofs Require Import C01_roundtrip C12_reader.
+From PX.Model Require Import Path Segment Raw Reader MapLoad MapTree Element Walker.
+From PX.Spec Require Import C01_spec C12_spec C12b_spec.
+From PX.Proofs Require Import C01_roundtrip C12_reader C12_layers.
 
 (* a parsed segment does not remember the delimiters it was written with *)
 Theorem C12_segment_delims_irrelevant :
@@ -44,3 +49,29 @@ Theorem C12_reader_independent_partial :
     /\ exists v, reading lx (encode d1 conv1 (isa_for d1 f :: body)) sch1 = Ok v.
 Proof. exact reading_delims_layout_independent. Qed.
 Print Assumptions C12_reader_independent_partial.
+
+(* segment validation (element checks, syntax notes, error texts and quoted values) does not look at the delimiters *)
+Theorem C12_validation_delims_irrelevant :
+  forall d1 d2 c sn sg, simple_positions_ok sn sg = true -> overflow_ok sn sg = true ->
+    seg_is_valid d1 c sn sg = seg_is_valid d2 c sn sg.
+Proof. exact validation_delims_irrelevant. Qed.
+Print Assumptions C12_validation_delims_irrelevant.
+
+(* the hypotheses are needed: a composite value at a simple position is quoted with the source's separator *)
+Theorem C12_validation_needs_simple_positions :
+  exists d1 d2 c sn sg, overflow_ok sn sg = true /\ seg_is_valid d1 c sn sg <> seg_is_valid d2 c sn sg.
+Proof.
+  do 5 eexists.
+  split; [exact (proj1 (proj2 Witness12.simple_position_needed)) | exact (proj2 (proj2 Witness12.simple_position_needed))].
+Qed.
+Print Assumptions C12_validation_needs_simple_positions.
+
+(* the walker: same node found, same loop pushes / pops, same counters, same errors; the events differ only in the
+   delimiters they carry along *)
+Theorem C12_walker_delims_irrelevant :
+  forall m w start d1 d2 sg sc cl ls, match_ok_everywhere m sg = true ->
+    let '(w1, ev1, r1) := walk_st m w start d1 sg sc cl ls in
+    let '(w2, ev2, r2) := walk_st m w start d2 sg sc cl ls in
+    w1 = w2 /\ r1 = r2 /\ map strip_delims ev1 = map strip_delims ev2.
+Proof. exact walker_delims_irrelevant. Qed.
+Print Assumptions C12_walker_delims_irrelevant.
